@@ -147,7 +147,10 @@ def run_latlon_struct(inst):
     from leuvenmapmatching.util import dist_latlon as dl
     kind, npts = inst[:2]
     maxsub = inst[3] if len(inst) > 3 else MAXSUB
-    saved = {k: getattr(dl, k) for k in ('radians', 'degrees', 'ceil', 'distance_haversine_radians', 'bearing_radians', 'destination_radians')}
+    saved = {k: getattr(dl, k) for k in ('radians', 'degrees', 'ceil', 'distance_haversine_radians', 'bearing_radians', 'destination_radians',
+                                         'cos', 'sin', 'asin', 'acos', 'atan2', 'sqrt')}
+    from symx.opaque import Opaque
+    opq = Opaque()
     memo = {}
 
     def install():
@@ -156,6 +159,11 @@ def run_latlon_struct(inst):
         dl.radians = lambda x: x
         dl.degrees = lambda x: x
         dl.ceil = sm.ceil
+        # a tree that computes the inserted points in another way (own trigonometry instead of the three primitives) still runs:
+        # its trigonometry is uninterpreted, the structure claims fail, and the verdict is left to the concrete grid (see confirm)
+        opq.reset()
+        for n in ('cos', 'sin', 'asin', 'acos', 'atan2', 'sqrt'):
+            setattr(dl, n, opq.uf(n))
 
         def dist(lat1, lon1, lat2, lon2, radius=None):
             k = ('d', lat1.t.get_id(), lon1.t.get_id(), lat2.t.get_id(), lon2.t.get_id())
